@@ -81,7 +81,7 @@ reg(
     "and carry the documented keys.",
     "Trusted: the journal shim sees all file mutations (validated every run: replaying the full journal reproduces "
     "the run directory byte for byte); process death only (page cache survives), no power-loss reordering. Hard kills "
-    "inside resumed runs are at program points, not every journal prefix. Known finding: kills inside an HDF5 library "
+    "inside resumed runs: every prefix of the resumed process's own write journal from the start images of phase 2b, program points elsewhere. Known finding: kills inside an HDF5 library "
     "write leave the .h5 inconsistent.",
     "exhaustive crash-point enumeration over a recorded write journal + program-point fault injection, BFS over crash sequences with byte-identical state merging, recovery executed on the real code in every state",
     "DESIGN.md section 4, C10",
@@ -239,7 +239,9 @@ EXTENSIONS = {
     "T_el 3e4 K, the same object moved to a new geometry, and a hot (T_el 13000 K) KSA family for the dt^2 scaling of the free energy.",
     "C10": " Two further oracles on every recovered image: the RNG state at each resumed step equals that of the uninterrupted "
     "run (engines that draw random numbers), and a checkpoint once published never disappears later in the same history.  Further "
-    "configurations: /data sparser than two checkpoint intervals; every byte cut of the XYZ writes after the first checkpoint.",
+    "configurations: /data sparser than two checkpoint intervals; every byte cut of the XYZ writes after the first checkpoint.  Depth 2 at "
+    "journal granularity: the RESUMED process runs under the write journal too (from the images right after each checkpoint publication and "
+    "half-way to the next one) and every prefix / torn page split of that journal applied to its start image is a state.",
     "C12": " Also: (a') the same driver object initialised for another equally padded batch first; (d) the real "
     "SurfaceHoppingDynamics object with a damping time and real CIS electronic structure: one-hot identification of the thermostat "
     "it applies, its n_dof against that thermostat's stationary state, two noise draws per real integrator step; (r) a thermostatted run interrupted after a checkpoint and finished by run_from_checkpoint is "
